@@ -226,29 +226,22 @@ func (c *Ctx) Finish(recheck func(caseJSON []byte) *Fail) int {
 			if recheck == nil {
 				return 5
 			}
+			if strings.HasPrefix(v.Key, "hang") || strings.HasSuffix(v.Key, ":hang") {
+				// a hang costs its full time-out (and an in-process hang leaks a spinning goroutine): re-executed once,
+				// and that one re-execution decides - a time-out caused by a loaded machine does not come back
+				done := make(chan *Fail, 1)
+				go func() { done <- recheck(caseRaw) }()
+				select {
+				case f := <-done:
+					if f != nil {
+						return 5
+					}
+					return 0
+				case <-time.After(c.CaseTimeout + 60*time.Second):
+					return 5
+				}
+			}
 			for i := 0; i < 5; i++ {
-				if strings.HasPrefix(v.Key, "hang") && i > 0 {
-					fails++ // a whole-system hang costs its full time-out: re-executed once
-					continue
-				}
-				if strings.HasSuffix(v.Key, ":hang") {
-					// re-executing a hanging case leaks a spinning goroutine each time: once is enough
-					if i > 0 {
-						fails++
-						continue
-					}
-					done := make(chan *Fail, 1)
-					go func() { done <- recheck(caseRaw) }()
-					select {
-					case f := <-done:
-						if f != nil {
-							fails++
-						}
-					case <-time.After(c.CaseTimeout + 5*time.Second):
-						fails++
-					}
-					continue
-				}
 				if f := recheck(caseRaw); f != nil {
 					fails++
 				}
@@ -257,7 +250,7 @@ func (c *Ctx) Finish(recheck func(caseJSON []byte) *Fail) int {
 		}
 		fails := reexec(v.Case)
 		for _, a := range v.alts {
-			if fails == 5 || ((strings.HasPrefix(v.Key, "hang") || strings.HasSuffix(v.Key, ":hang")) && fails >= 4) {
+			if fails == 5 {
 				break
 			}
 			if n := reexec(a.Case); n > fails {
